@@ -23,13 +23,24 @@ Record obs_ev := mkObs { o_eff : list effect; o_views : list (list peer); o_conn
    evs is one such linearisation (each list once), obs is the single observation made after all
    calls returned (no effects recorded), or [] when some call did not return within the
    watchdog limit (the topology is stuck). *)
+(* c_mode 2: overlapping Connected calls on shared addresses, scheduled by the driver: every
+   BroadcastPeers parks in the fake transport until released, one goroutine runs at a time.
+   c_acts is the schedule, c_calls what each call was seen to do (returned?, its announcer calls and
+   PeerLists), obs the single final observation. *)
+Inductive action :=
+| AStart (c : N) (p : peer) (lk : list (peer * bytes)) (ann : list (peer * N))  (* go topo.Connected(p); runs to its first park *)
+| ARelease (c : N)                                                              (* let call c run to its next park / return *)
+| AOther (e : event).                                                           (* atomic call made by the driver itself *)
+
 Record case := mkCase {
   id : N;
   c_mode : N;
   c_roles : list Z;          (* int(p2p.PeerTypeBootnode), int(PeerTypeProvider), int(PeerTypeBidder) as compiled *)
   probes : list addr;
   evs : list event;
-  obs : list obs_ev }.
+  obs : list obs_ev;
+  c_acts : list action;
+  c_calls : list (N * bool * list effect) }.
 
 Definition view_roles : list Z := [ROLE_BOOTNODE; ROLE_PROVIDER; ROLE_BIDDER; (-1)%Z].
 
@@ -96,11 +107,44 @@ Fixpoint within_pool (s : state) (l : list event) : bool :=
 
 Definition final_obs (pr : list addr) (l : list event) : obs_ev := observe pr (run l) [].
 
+(* --- mode 2: the schedule compiled to steps of the step model ------------------------------------
+   A call runs until it calls BroadcastPeers (which parks) or returns: execute the candidate steps in
+   order until one of them announces. *)
+Fixpoint until_park (s : sstate) (cand : list sevent) : sstate * list sevent :=
+  match cand with
+  | [] => (s, [])
+  | e :: r => if is_nil (announces (snd (sstep s e))) then
+                let (s', done) := until_park (fst (sstep s e)) r in (s', e :: done)
+              else (fst (sstep s e), [e])
+  end.
+Definition act_steps (s : sstate) (a : action) : sstate * list sevent :=
+  match a with
+  | AStart c p lk ann => until_park s [SAdd c p lk ann; SReadProviders c; SAnnounce c; SReadBidders c; SFanout c]
+  | ARelease c => until_park s [SReadBidders c; SFanout c]
+  | AOther e => (fst (sstep s (SOther e)), [SOther e])
+  end.
+Fixpoint compile (s : sstate) (l : list action) : list sevent :=
+  match l with
+  | [] => []
+  | a :: r => snd (act_steps s a) ++ compile (fst (act_steps s a)) r
+  end.
+Definition started_calls (l : list action) : list N :=
+  flat_map (fun a => match a with AStart c _ _ _ => [c] | _ => [] end) l.
+Definition model_call (steps : list sevent) (c : N) : N * bool * list effect :=
+  (c, match find_call c (calls (srun steps)) with Some k => call_done k | None => false end, call_effects c steps).
+Definition call_eqb (x y : N * bool * list effect) : bool :=
+  (fst (fst x) =? fst (fst y)) && Bool.eqb (snd (fst x)) (snd (fst y)) && ms_eqb effect_eqb (snd x) (snd y).
+Definition overlap_agrees (c : case) : bool :=
+  let steps := compile sinit (c_acts c) in
+  list_eqb call_eqb (map (model_call steps) (started_calls (c_acts c))) (c_calls c)
+  && list_eqb obs_eqb [observe (probes c) (base (srun steps)) []] (obs c).
+
 Definition case_agrees (c : case) : bool :=
   list_eqb Z.eqb (c_roles c) [ROLE_BOOTNODE; ROLE_PROVIDER; ROLE_BIDDER]
   && within_pool init (evs c)
   && (if c_mode c =? 0 then list_eqb obs_eqb (run_obs (probes c) init (evs c)) (obs c)
-      else list_eqb obs_eqb [final_obs (probes c) (evs c)] (obs c)).
+      else if c_mode c =? 1 then list_eqb obs_eqb [final_obs (probes c) (evs c)] (obs c)
+      else overlap_agrees c).
 
 Definition mismatches (cs : list case) : list N :=
   map id (filter (fun c => negb (case_agrees c)) cs).
@@ -239,7 +283,8 @@ Definition event_clauses (A : abs) (pr : list addr) (e : event) (o : obs_ev) : l
 Fixpoint trace_clauses (A : abs) (pr : list addr) (l : list event) (os : list obs_ev) : list string :=
   match l, os with
   | e :: l', o :: os' => event_clauses A pr e o ++ trace_clauses (abs_step A e (o_eff o)) pr l' os'
-  | _, _ => []
+  | _ :: _, [] => ["view:hang"%string]      (* the observation stops before the history does *)
+  | [], _ => []
   end.
 
 (* concurrent runs: the abstract sets after the linearisation (the effects a dial completion
@@ -255,13 +300,92 @@ Definition final_clauses (pr : list addr) (l : list event) (os : list obs_ev) : 
   | _ => ["view:hang"%string]
   end.
 
+(* --- mode 2: soundness and no-loss judged from the schedule and the observation alone -------------
+   For every call the windows "in the provider (bidder) set at some time / at all times between the
+   start of the call (after its own add) and its last action" are accumulated over the schedule. *)
+Record win := mkWin { w_id : N; w_peer : peer; w_lk : list (peer * bytes); w_ann : list (peer * N);
+                      w_everP : list addr; w_everB : list addr; w_alwP : list addr; w_alwB : list addr }.
+Definition acts_on (c : N) (a : action) : bool :=
+  match a with AStart d _ _ _ => d =? c | ARelease d => d =? c | AOther _ => false end.
+Definition union (l1 l2 : list addr) : list addr := fold_left (fun acc a => if amem a acc then acc else a :: acc) l2 l1.
+Definition inter (l1 l2 : list addr) : list addr := filter (fun a => amem a l2) l1.
+Definition win_update (A : abs) (w : win) : win :=
+  mkWin (w_id w) (w_peer w) (w_lk w) (w_ann w)
+        (union (w_everP w) (aP A)) (union (w_everB w) (aB A)) (inter (w_alwP w) (aP A)) (inter (w_alwB w) (aB A)).
+(* after each action the windows of the calls that are still running (have a later action, or act
+   now) are updated with the current sets *)
+Fixpoint windows (A : abs) (ws : list win) (l : list action) : list win * abs :=
+  match l with
+  | [] => (ws, A)
+  | a :: r =>
+      let A' := match a with
+                | AStart _ p _ _ => abs_add p A
+                | ARelease _ => A
+                | AOther e => abs_step A e []
+                end in
+      let ws1 := match a with
+                 | AStart c p lk ann =>
+                     if existsb (fun w => w_id w =? c) ws then ws
+                     else ws ++ [mkWin c p lk ann (aP A') (aB A') (aP A') (aB A')]
+                 | _ => ws
+                 end in
+      let live w := acts_on (w_id w) a || existsb (acts_on (w_id w)) r in
+      windows A' (map (fun w => if live w then win_update A' w else w) ws1) r
+  end.
+
+Definition call_clauses (w : win) (done : bool) (eff : list effect) : list string :=
+  let p := w_peer w in
+  let ms := announces eff in
+  let to_new := filter (fun m => peer_eqb (fst m) p) ms in
+  let others := filter (fun m => negb (peer_eqb (fst m) p)) ms in
+  let got := flat_map snd to_new in
+  let ok_rec r := negb (fst r =? p_addr p) && amem (fst r) (w_everP w)
+                  && match tbl_get (w_lk w) (mkPeer (fst r) ROLE_PROVIDER) with
+                     | Some u => bytes_eqb u (snd r) | None => false end in
+  let own := if (p_role p =? ROLE_PROVIDER)%Z then tbl_get (w_lk w) p else None in
+  let ok_fan m := match own with
+                  | Some u => (p_role (fst m) =? ROLE_BIDDER)%Z && amem (p_addr (fst m)) (w_everB w)
+                              && ms_eqb record_eqb (snd m) [(p_addr p, u)]
+                  | None => false
+                  end in
+  let bad := filter (fun r => negb (fst r =? p_addr p) && negb (ok_rec r)) got in
+  flag (existsb (fun r => fst r =? p_addr p) got) "announce:self"
+  ++ flag (existsb (fun r => negb (amem (fst r) (w_everP w)) && amem (fst r) (w_everB w)) bad) "announce:bidder"
+  ++ flag (existsb (fun r => amem (fst r) (w_everP w) || negb (amem (fst r) (w_everB w))) bad
+           || existsb (fun m => is_nil (snd m)) to_new
+           || existsb (fun m => negb (ok_fan m)) others
+           || negb (is_nil (ms_diff wmsg_eqb (wires eff) (expected_wires (w_ann w) ms)))) "announce:extra"
+  ++ flag (done &&
+           (existsb (fun a => negb (a =? p_addr p)
+                              && match tbl_get (w_lk w) (mkPeer a ROLE_PROVIDER) with
+                                 | Some u => negb (rec_mem (a, u) got) | None => false end) (w_alwP w)
+            || match own with
+               | Some u => existsb (fun b => negb (existsb (msg_eqb (mkPeer b ROLE_BIDDER, [(p_addr p, u)])) others)) (w_alwB w)
+               | None => false
+               end
+            || negb (is_nil (ms_diff wmsg_eqb (expected_wires (w_ann w) ms) (wires eff))))) "announce:missing".
+
+Definition overlap_clauses (c : case) : list string :=
+  let (ws, A) := windows abs_init [] (c_acts c) in
+  flat_map (fun w => match find (fun x => fst (fst x) =? w_id w) (c_calls c) with
+                     | Some x => call_clauses w (snd (fst x)) (snd x)
+                                 ++ flag (negb (snd (fst x))) "view:hang"
+                     | None => ["view:hang"%string]
+                     end) ws
+  ++ match obs c with
+     | [o] => flag (negb (view_ok A (probes c) o)) "view"
+     | _ => ["view:hang"%string]
+     end.
+
 Definition case_violations (c : case) : list string :=
   if c_mode c =? 0 then nodup string_dec (trace_clauses abs_init (probes c) (evs c) (obs c))
-  else final_clauses (probes c) (evs c) (obs c).
+  else if c_mode c =? 1 then final_clauses (probes c) (evs c) (obs c)
+  else nodup string_dec (overlap_clauses c).
 
 Definition violations (cs : list case) : list (N * string) :=
   flat_map (fun c => map (fun k => (id c, k)) (case_violations c)) cs.
 
 (* a case exercises the property when the model announces, dials or adds at least once *)
 Definition nontrivial (cs : list case) : list N :=
-  map id (filter (fun c => negb (is_nil (concat (trace (evs c))))) cs).
+  map id (filter (fun c => negb (is_nil (concat (trace (evs c))))
+                           || negb (is_nil (flat_map (fun x => snd x) (c_calls c)))) cs).
